@@ -385,6 +385,29 @@ class JobProxy:
         return getattr(self._real, name)
 
 
+class HookedList(list):
+    """problem.failed during a run: a thread switch is offered before an append and between the evaluation of
+    `failed + [x]` and whatever the caller does with the result (both are byte-code boundaries in CPython)"""
+
+    def __init__(self, data, session):
+        super().__init__(data)
+        self._session = session
+
+    def append(self, x):
+        self._session.preempt()
+        list.append(self, x)
+
+    def __add__(self, other):
+        r = HookedList(list.__add__(self, list(other)), self._session)
+        self._session.preempt()
+        return r
+
+    def __iadd__(self, other):
+        self._session.preempt()
+        list.extend(self, other)
+        return self
+
+
 class Sqlite3Proxy:
     """artap.datastore.sqlite3 during a run: opening a connection is an extra preemption point, so that controlled
     schedules also put two threads inside sync_individual at the same time (no lock is held at that moment)"""
@@ -524,7 +547,7 @@ class Session:
         self.ctl.pos = {t: n for n, t in enumerate(cfg["batch"])}
         p.session = self
         p.individuals = list(self.objs)
-        p.failed = []
+        p.failed = HookedList([], self)
         real = None
         if cfg["store"] == "sqlite":
             self.path = lab.db_path()
@@ -538,6 +561,7 @@ class Session:
         V.gen_vector = self.gen_vector_wrapper()
         saved_sqlite = lab.datastore_module.sqlite3
         lab.datastore_module.sqlite3 = Sqlite3Proxy(saved_sqlite, self)
+        counter0 = getattr(p.surrogate, "eval_counter", 0)
         sched = threading.Thread(target=self.ctl.loop, daemon=True)
         out = io.StringIO()
         old_switch = sys.getswitchinterval()
@@ -562,6 +586,7 @@ class Session:
             V.gen_vector = saved
             lab.datastore_module.sqlite3 = saved_sqlite
         self.wall = time.time() - t0
+        self.counter_delta = getattr(p.surrogate, "eval_counter", 0) - counter0
         self.after = [self.snap(o) for o in self.objs]
         self.failed = [self.snap(f) for f in p.failed]
         self.rows, self.extra_rows, self.nrows = self.read_rows()
@@ -822,6 +847,7 @@ def one(ctx, lab, cfg, k, policy, label, acc, switch=None):
     h["gate_events"] += len(trace)
     h["objective_calls"] += len(par.calls)
     h["stalls"] += par.ctl.stalls
+    h["surrogate_eval_counter_lost_updates"] += max(0, len(par.calls) - par.counter_delta)     # statistics counter, not part of C07
     h["off_target"] += 1 if getattr(par.ctl, "off_target", False) else 0
     h["max_wall_s"] = max(h["max_wall_s"], round(par.wall, 3))
     serial_like = all(trace[j][0] == trace[j + 1][0] or trace[j][2] == "sync" for j in range(len(trace) - 1))
@@ -838,7 +864,7 @@ def run(ctx):
     rng = ctx.rng
     acc = {"cases": [], "expected": [], "meta": [],
            "hist": {"schedules": 0, "by_policy": {}, "by_batch_size": {}, "by_workers": {}, "by_store": {}, "with_transient_failures": 0,
-                    "gate_events": 0, "objective_calls": 0, "stalls": 0, "off_target": 0, "max_wall_s": 0.0, "free_running": 0,
+                    "gate_events": 0, "objective_calls": 0, "stalls": 0, "surrogate_eval_counter_lost_updates": 0, "off_target": 0, "max_wall_s": 0.0, "free_running": 0,
                     "exhaustive_merges": 0}}
     # ---- corpus: the schedules named in the design, on a fixed batch, both stores
     for store in ("sqlite", "memory"):
